@@ -193,6 +193,32 @@ def main(tier: str) -> int:
         out = minmax_scale(np.array(vals))
         add({"op": "minmax", "d": [C.rat(v) for v in vals]}, ("minmax", {"d": vals}, [float(x) for x in out]))
 
+    # the TRANSLATED minmax_scale (TFV/Generated/Src/Select_minmax_scale.lean, read through TFV.Model.NpQ) evaluated by Lean against the real
+    # function on vectors of small dyadic numbers (incl. constant ones, one entry, none)
+    mcases = [[]] + [[rng.randint(-8, 8) / 4 for _ in range(rng.randint(1, 6))] for _ in range(25 if tier == "quick" else 200)] + [[0.75] * 3, [-2.0]]
+    qv = lambda v: "[" + ", ".join("(%d : Rat) / 4" % int(round(x * 4)) for x in v) + "]"   # noqa: E731
+    mlines = ["import TFV.Generated.Src.Select_minmax_scale", "open TFV TFV.Generated.Src",
+              "def showQ : Option (List Rat) → String | none => \"none\" | some v => toString (v.map fun q => (q.num, q.den))"]
+    mlines += ["#eval IO.println (showQ (Select_minmax_scale (%s : List Rat)))" % qv(v) for v in mcases]
+    maudit = C.LEAN / "TFV" / "Audit" / "C11_np.lean"
+    maudit.parent.mkdir(parents=True, exist_ok=True)
+    maudit.write_text("\n".join(mlines) + "\n")
+    with C.LeanLock():
+        mpr = subprocess.run(["lake", "env", "lean", str(maudit.relative_to(C.LEAN))], cwd=C.LEAN, capture_output=True, text=True, timeout=900)
+    mgot = [l.strip() for l in mpr.stdout.splitlines() if l.strip()]
+    chk.obligation("the translated minmax_scale evaluates (lake env lean TFV/Audit/C11_np.lean)", mpr.returncode == 0 and len(mgot) == len(mcases), (mpr.stdout + mpr.stderr)[-600:])
+    if mpr.returncode == 0 and len(mgot) == len(mcases):
+        import re as _re
+        for v, g in zip(mcases, mgot):
+            try:
+                real = [float(x) for x in minmax_scale(np.array(v, dtype=np.float64))]
+            except Exception:
+                real = None
+            vals = None if g == "none" else [int(a) / int(b) for a, b in _re.findall(r"\((-?\d+), (\d+)\)", g)]
+            chk.count("np_kernel_minmax")
+            same = (real is None and vals is None) or (real is not None and vals is not None and len(real) == len(vals) and all(C.close(a, b, 1e-12, 1e-12) for a, b in zip(real, vals)))
+            (chk.agree("np_kernel:minmax_scale") if same else chk.disagree("np_kernel:minmax_scale", {"input": {"data": v}, "impl": real, "model": g}))
+
     # ---- D: stochastic primitives with predicted draws
     mirror = mirror_ok()
     chk.obligation("draw oracle: numba streams == RandomState mirror", mirror,
